@@ -328,10 +328,37 @@ def run_greenback(case) -> dict:
     where = case["where"]
     res: Dict[str, Any] = {}
 
+    def call_in(fn):
+        """Where the asking code runs: in the task's own (greenback) greenlet, or in a greenlet the task's synchronous code made
+        itself, whose parent may be alive, finished, never started, or running a C function."""
+        import greenlet
+
+        via = case.get("via", "direct")
+        if via == "direct":
+            return fn()
+        if via == "ugl":
+            return greenlet.greenlet(fn).switch()
+        if via == "ugl_dead":
+            box = {}
+
+            def spawner():
+                box["g"] = greenlet.greenlet(fn)          # its parent is the spawner, which then finishes
+
+            greenlet.greenlet(spawner).switch()
+            return box["g"].switch()
+        if via == "ugl_unstarted":
+            return greenlet.greenlet(fn, parent=greenlet.greenlet(lambda *a: None)).switch()
+        if via == "ugl_c":
+            inner = greenlet.greenlet(fn)
+            mid = greenlet.greenlet(inner.switch)          # alive, an ancestor of the asker, holding no Python frame
+            inner.parent = mid
+            return mid.switch()
+        raise ValueError(via)
+
     def mk_sync(k):
         def sync_fn():
             if k == 0 and where == "inside":
-                res["st"] = stackscope.extract(trio.lowlevel.current_task(), with_contexts=False)
+                call_in(lambda: res.__setitem__("st", stackscope.extract(trio.lowlevel.current_task(), with_contexts=False)))
                 return
             co = mk_async(k)()
             aw = case.get("aw", "coro")
@@ -366,7 +393,7 @@ def run_greenback(case) -> dict:
         await greenback.ensure_portal()
         if m == 0:
             if where == "inside":
-                res["st"] = stackscope.extract(trio.lowlevel.current_task(), with_contexts=False)
+                call_in(lambda: res.__setitem__("st", stackscope.extract(trio.lowlevel.current_task(), with_contexts=False)))
             else:
                 await trio.sleep_forever()
         else:
@@ -445,6 +472,9 @@ class C15(PropCheck):
         for m in range(0, 4):
             for where in ("outside", "inside"):
                 out.append({"k": "greenback", "alternations": m, "where": where})
+                if where == "inside":
+                    for via in ("ugl", "ugl_dead", "ugl_unstarted", "ugl_c"):
+                        out.append({"k": "greenback", "alternations": m, "where": where, "via": via})
                 if m >= 1:
                     for aw in ("wrapper", "gen"):
                         out.append({"k": "greenback", "alternations": m, "where": where, "aw": aw})
